@@ -193,7 +193,26 @@ async fn run_storm(a: &Args, m: &mut mon::Mon) {
                 w.refresh_oracles();
                 scen::close_bank_cycle(&mut w, m, &mut r, s.g, s.liquidator).await;
             }
-            if k == 300 && matches!(a.prop.as_str(), "C02" | "C01" | "C06") && (world_no % 2 == 0 || a.prop == "C02") {
+            if k % 500 == 350 && a.prop == "C16" {
+                // an account goes bankrupt (disabled), its owner moves it to a new address and tries to
+                // act with it there: the disabled status follows the positions
+                w.refresh_oracles();
+                let g = s.g;
+                let nb = w.banks.len();
+                let cands: Vec<usize> = (0..nb).filter(|b| scen::usable_collateral(&w, *b)).collect();
+                let dbs: Vec<usize> = (0..nb).filter(|b| w.bank(*b).config.operational_state == marginfi_type_crate::types::BankOperationalState::Operational && w.bank(*b).config.asset_tag <= 1).collect();
+                if !cands.is_empty() && dbs.len() > 1 {
+                    let ca = storm::pick(&mut r, &cands);
+                    let db = storm::pick(&mut r, &dbs);
+                    if ca != db {
+                        if let Some(lev) = scen::setup_leveraged(&mut w, m, &mut r, g, s.liquidator, ca, db, 0.9).await {
+                            scen::bankruptcy(&mut w, m, &mut r, &lev, g).await;
+                            m.r.count("C16.bankruptcy_and_move_scenarios");
+                        }
+                    }
+                }
+            }
+            if k == 300 && matches!(a.prop.as_str(), "C02" | "C01" | "C06" | "C16") && (world_no % 2 == 0 || a.prop == "C02" || a.prop == "C16") {
                 // a bank is wiped out by bad debt half-way through (ledger / solvency exception / accrual on a dead bank)
                 w.refresh_oracles();
                 let lender = s.liquidator;
